@@ -886,13 +886,152 @@ Proof.
   unfold file_out. rewrite build_frames_spec. eexists. split; [reflexivity|]. split; reflexivity.
 Qed.
 
-Theorem splunk_out_spec batch prev script :
-  exists a, splunk_out batch prev script = Ok a
-    /\ at_buf a = concat (map frame_splunk (deliverable batch))
-    /\ map rq_body (at_reqs a) = [concat (map frame_splunk (deliverable batch))].
+Theorem splunk_out_spec cfg batch prev script :
+  exists a, splunk_out cfg batch prev script = Ok a
+    /\ at_buf a = concat (map (envelope cfg) (deliverable batch))
+    /\ map rq_body (at_reqs a) = [concat (map (envelope cfg) (deliverable batch))].
 Proof.
   unfold splunk_out, send_whole. rewrite build_frames_spec. destruct (next_status script) as [st sc].
   eexists. split; [reflexivity|]. split; reflexivity.
+Qed.
+
+(* ---- splunk copy_fields: the envelope ------------------------------------------------------ *)
+(* without copy_fields the envelope is {"event":<the event>} *)
+Lemma envelope_nil e : envelope [] e = frame_splunk e.
+Proof. reflexivity. Qed.
+
+Theorem splunk_out_nocopy_spec batch prev script :
+  exists a, splunk_out [] batch prev script = Ok a
+    /\ at_buf a = concat (map frame_splunk (deliverable batch))
+    /\ map rq_body (at_reqs a) = [concat (map frame_splunk (deliverable batch))].
+Proof.
+  destruct (splunk_out_spec [] batch prev script) as (a & E & B & R). exists a.
+  rewrite (map_ext _ _ envelope_nil) in B, R. auto.
+Qed.
+
+(* the payload of a batch: the envelopes of its deliverable events, in order *)
+Definition splunk_payload (cfg : list cp_entry) (batch : list ev) : bytes :=
+  concat (map (envelope cfg) (deliverable batch)).
+
+Lemma splunk_payload_mid cfg pre e post : is_parent e = false ->
+  splunk_payload cfg (pre ++ e :: post) = splunk_payload cfg pre ++ envelope cfg e ++ splunk_payload cfg post.
+Proof.
+  intro Hp. unfold splunk_payload. rewrite deliverable_app. cbn [deliverable filter]. rewrite Hp. cbn [negb].
+  rewrite map_app, concat_app. reflexivity.
+Qed.
+
+(* envelope independence / no cross-event leakage: whatever the other events of the batch are — any
+   events before, any events after, any previous buffer content, any answers — the bytes the batch's
+   request carries for a deliverable event e are [envelope cfg e], a function of e and the configuration
+   alone; so permuting, replacing or removing OTHER events never changes e's envelope *)
+Theorem splunk_envelope_independent cfg e pre post prev script :
+  is_parent e = false ->
+  exists a, splunk_out cfg (pre ++ e :: post) prev script = Ok a
+    /\ map rq_body (at_reqs a) = [at_buf a]
+    /\ at_buf a = splunk_payload cfg pre ++ envelope cfg e ++ splunk_payload cfg post
+    /\ slice (at_buf a) (len (splunk_payload cfg pre)) (len (splunk_payload cfg pre) + len (envelope cfg e))
+       = Ok (envelope cfg e).
+Proof.
+  intro Hp. destruct (splunk_out_spec cfg (pre ++ e :: post) prev script) as (a & E & B & R).
+  exists a. split; [exact E|]. fold (splunk_payload cfg (pre ++ e :: post)) in B, R.
+  rewrite (splunk_payload_mid cfg pre e post Hp) in B, R.
+  split; [rewrite R, B; reflexivity|]. split; [exact B|]. rewrite B. apply slice_app_mid.
+Qed.
+
+Theorem splunk_no_cross_event_leak cfg e pre1 post1 pre2 post2 p1 s1 p2 s2 :
+  is_parent e = false ->
+  exists a1 a2,
+    splunk_out cfg (pre1 ++ e :: post1) p1 s1 = Ok a1 /\ splunk_out cfg (pre2 ++ e :: post2) p2 s2 = Ok a2
+    /\ slice (at_buf a1) (len (splunk_payload cfg pre1)) (len (splunk_payload cfg pre1) + len (envelope cfg e))
+       = slice (at_buf a2) (len (splunk_payload cfg pre2)) (len (splunk_payload cfg pre2) + len (envelope cfg e))
+    /\ slice (at_buf a1) (len (splunk_payload cfg pre1)) (len (splunk_payload cfg pre1) + len (envelope cfg e))
+       = Ok (envelope cfg e).
+Proof.
+  intro Hp.
+  destruct (splunk_envelope_independent cfg e pre1 post1 p1 s1 Hp) as (a1 & E1 & _ & _ & S1).
+  destruct (splunk_envelope_independent cfg e pre2 post2 p2 s2 Hp) as (a2 & E2 & _ & _ & S2).
+  exists a1, a2. rewrite S1, S2. auto.
+Qed.
+
+(* the envelope reads nothing of the event but its encoding and its copied values *)
+Theorem envelope_local cfg e1 e2 :
+  enc e1 = enc e2 -> ev_copy e1 = ev_copy e2 -> envelope cfg e1 = envelope cfg e2.
+Proof. unfold envelope. intros -> ->. reflexivity. Qed.
+
+(* an event that has none of the source fields gets the bare envelope, whatever is configured *)
+Lemma apply_copies_none cfg : forall vals fs,
+  Forall (fun v => v = None) vals -> apply_copies cfg vals fs = fs.
+Proof.
+  induction cfg as [|c r IH]; intros vals fs Hv; cbn [apply_copies]; [reflexivity|].
+  destruct vals as [|v vs].
+  - cbn [tl]. destruct (splunk_keep (cp_to_raw c)); apply IH; constructor.
+  - inversion Hv as [|? ? Hv1 Hv2]; subst. cbn [tl]. destruct (splunk_keep (cp_to_raw c)); apply IH; exact Hv2.
+Qed.
+
+Theorem envelope_no_sources cfg e :
+  Forall (fun v => v = None) (ev_copy e) -> envelope cfg e = frame_splunk e.
+Proof. intro H. unfold envelope. rewrite apply_copies_none by exact H. reflexivity. Qed.
+
+(* a configuration as Start() leaves it: a kept entry has a non-empty target path that does not
+   start at the "event" key (the glue rejects every other case) *)
+Definition cp_ok (c : cp_entry) : Prop :=
+  splunk_keep (cp_to_raw c) = true ->
+  match cp_to c with [] => False | (k, _) :: _ => bytes_eqb EVENT_KEY k = false end.
+
+Lemma cp_entry_of_sx_ok s c : cp_entry_of_sx s = Some c -> cp_ok c.
+Proof.
+  unfold cp_entry_of_sx, cp_ok.
+  destruct s as [| |l]; try discriminate.
+  destruct l as [|[| |] l]; try discriminate.
+  destruct l as [|[|to|] l]; try discriminate.
+  destruct l as [|[| |fl] l]; try discriminate.
+  destruct l as [|segs l]; try discriminate.
+  destruct l; try discriminate.
+  destruct (as_list seg_of_sx segs) as [p|]; try discriminate.
+  destruct (splunk_keep to) eqn:K.
+  - destruct p as [|[k esc] p']; try discriminate.
+    destruct (bytes_eqb EVENT_KEY k) eqn:Ek; try discriminate.
+    intro H. injection H as <-. cbn [cp_to_raw cp_to]. intros _. exact Ek.
+  - intro H. injection H as <-. cbn [cp_to_raw]. rewrite K. discriminate.
+Qed.
+
+Lemma upsert_other k esc f k0 e0 x0 r :
+  bytes_eqb k0 k = false -> upsert k esc f ((k0, e0, x0) :: r) = (k0, e0, x0) :: upsert k esc f r.
+Proof. intro H. cbn [upsert]. rewrite H. reflexivity. Qed.
+
+Lemma set_path_keeps_head path v k0 e0 x0 r :
+  match path with [] => True | (k, _) :: _ => bytes_eqb k0 k = false end ->
+  exists r', set_path path v ((k0, e0, x0) :: r) = (k0, e0, x0) :: r'.
+Proof.
+  destruct path as [|[k esc] rest]; intro H; cbn [set_path].
+  - eexists. reflexivity.
+  - destruct rest; rewrite upsert_other by exact H; eexists; reflexivity.
+Qed.
+
+Lemma apply_copies_keeps_event cfg : Forall cp_ok cfg -> forall vals x0 r,
+  exists r', apply_copies cfg vals ((EVENT_KEY, EVENT_ESC, x0) :: r) = (EVENT_KEY, EVENT_ESC, x0) :: r'.
+Proof.
+  induction 1 as [|c cfg Hc _ IH]; intros vals x0 r; cbn [apply_copies].
+  - eexists. reflexivity.
+  - destruct (splunk_keep (cp_to_raw c)) eqn:K; [|apply IH].
+    destruct vals as [|[x|] vs]; cbn [tl]; try apply IH.
+    specialize (Hc K).
+    destruct (set_path_keeps_head (cp_to c) x EVENT_KEY EVENT_ESC x0 r) as (r1 & E1).
+    { destruct (cp_to c) as [|[k esc] rest]; [exact I|exact Hc]. }
+    rewrite E1. apply IH.
+Qed.
+
+(* every envelope starts with {"event":<the event's encoding> — the event is carried whole and first —
+   and goes on with the closing brace or with a comma and the copied fields *)
+Theorem envelope_carries_event cfg e : Forall cp_ok cfg ->
+  exists tail, envelope cfg e = SPLUNK_PRE ++ enc e ++ tail
+    /\ (tail = [125]%N \/ exists t, tail = 44%N :: t).
+Proof.
+  intro Hc. unfold envelope.
+  destruct (apply_copies_keeps_event cfg Hc (ev_copy e) (OV (enc e)) []) as (r' & E). rewrite E.
+  destruct r' as [|[[k1 e1] x1] r''].
+  - exists [125]%N. split; [reflexivity|left; reflexivity].
+  - eexists. split; [cbn [oenc]; reflexivity|]. right. eexists. reflexivity.
 Qed.
 
 Theorem gelf_out_spec batch prev script :
@@ -913,8 +1052,8 @@ Theorem payload_independent batch :
       http_out raw sp batch p1 s1 = Ok a1 -> http_out raw sp batch p2 s2 = Ok a2 -> at_buf a1 = at_buf a2)
   /\ (forall p1 s1 p2 s2 a1 a2,
       file_out batch p1 s1 = Ok a1 -> file_out batch p2 s2 = Ok a2 -> at_buf a1 = at_buf a2)
-  /\ (forall p1 s1 p2 s2 a1 a2,
-      splunk_out batch p1 s1 = Ok a1 -> splunk_out batch p2 s2 = Ok a2 -> at_buf a1 = at_buf a2)
+  /\ (forall cfg p1 s1 p2 s2 a1 a2,
+      splunk_out cfg batch p1 s1 = Ok a1 -> splunk_out cfg batch p2 s2 = Ok a2 -> at_buf a1 = at_buf a2)
   /\ (forall p1 s1 p2 s2 a1 a2,
       gelf_out batch p1 s1 = Ok a1 -> gelf_out batch p2 s2 = Ok a2 -> at_buf a1 = at_buf a2)
   /\ (forall c p1 p2, len (deliverable batch) <= k_batch_size c -> kafka_build c batch p1 = kafka_build c batch p2).
@@ -929,9 +1068,9 @@ Proof.
   - intros p1 s1 p2 s2 a1 a2 H1 H2.
     destruct (file_out_spec batch p1 s1) as (b1 & E1 & B1 & _).
     destruct (file_out_spec batch p2 s2) as (b2 & E2 & B2 & _). congruence.
-  - intros p1 s1 p2 s2 a1 a2 H1 H2.
-    destruct (splunk_out_spec batch p1 s1) as (b1 & E1 & B1 & _).
-    destruct (splunk_out_spec batch p2 s2) as (b2 & E2 & B2 & _). congruence.
+  - intros cfg p1 s1 p2 s2 a1 a2 H1 H2.
+    destruct (splunk_out_spec cfg batch p1 s1) as (b1 & E1 & B1 & _).
+    destruct (splunk_out_spec cfg batch p2 s2) as (b2 & E2 & B2 & _). congruence.
   - intros p1 s1 p2 s2 a1 a2 H1 H2.
     destruct (gelf_out_spec batch p1 s1) as (b1 & E1 & B1 & _).
     destruct (gelf_out_spec batch p2 s2) as (b2 & E2 & B2 & _). congruence.
@@ -995,11 +1134,19 @@ Qed.
    10. a concrete instance of the hypotheses (used by the non-vacuity example)
    ========================================================================================== *)
 Definition ex_cfg : es_cfg := mkEs [105]%N [120; 45; 37]%N [IField] [116]%N true.
-Definition ex_e1 : ev := mkEv 0 [123; 49; 125]%N [[97; 34; 98]%N] [[97; 92; 34; 98]%N] [] None.
-Definition ex_e2 : ev := mkEv 2 [123; 50; 125]%N [[]] [[]] [] None.
-Definition ex_e3 : ev := mkEv 0 [123; 51; 125]%N [[]] [[]] [] None.
+Definition ex_e1 : ev := mkEv 0 [123; 49; 125]%N [[97; 34; 98]%N] [[97; 92; 34; 98]%N] [] None [].
+Definition ex_e2 : ev := mkEv 2 [123; 50; 125]%N [[]] [[]] [] None [].
+Definition ex_e3 : ev := mkEv 0 [123; 51; 125]%N [[]] [[]] [] None [].
 Lemma ex_hyps_ok : es_cfg_ok ex_cfg /\ es_cfg_plain ex_cfg /\ esc_safe ex_e1.
 Proof.
   split; [unfold es_cfg_ok; cbn; lia|]. split; [repeat split; reflexivity|].
   unfold esc_safe. cbn. repeat constructor.
 Qed.
+
+(* the splunk instance: ts -> time, service -> fields.service_name, and an entry to event.x that Start() drops *)
+Definition ex_scfg : list cp_entry := [mkCp [116; 105; 109; 101]%N [([116; 105; 109; 101]%N, [34; 116; 105; 109; 101; 34]%N)]; mkCp [102; 105; 101; 108; 100; 115; 46; 115; 101; 114; 118; 105; 99; 101; 95; 110; 97; 109; 101]%N [([102; 105; 101; 108; 100; 115]%N, [34; 102; 105; 101; 108; 100; 115; 34]%N); ([115; 101; 114; 118; 105; 99; 101; 95; 110; 97; 109; 101]%N, [34; 115; 101; 114; 118; 105; 99; 101; 95; 110; 97; 109; 101; 34]%N)]; mkCp [101; 118; 101; 110; 116; 46; 120]%N [([101; 118; 101; 110; 116]%N, [34; 101; 118; 101; 110; 116; 34]%N); ([120]%N, [34; 120; 34]%N)]].
+Definition ex_s1 : ev := mkEv 0 [123; 34; 109; 115; 103; 34; 58; 34; 102; 105; 114; 115; 116; 34; 44; 34; 116; 115; 34; 58; 34; 49; 55; 34; 44; 34; 115; 101; 114; 118; 105; 99; 101; 34; 58; 34; 97; 34; 125]%N [] [] [] None [Some (OV [34; 49; 55; 34]%N); Some (OV [34; 97; 34]%N); Some (OV [34; 102; 105; 114; 115; 116; 34]%N)].
+Definition ex_s2 : ev := mkEv 0 [123; 34; 109; 115; 103; 34; 58; 34; 115; 101; 99; 111; 110; 100; 34; 125]%N [] [] [] None [None; None; Some (OV [34; 115; 101; 99; 111; 110; 100; 34]%N)].
+Definition ex_s3 : ev := mkEv 0 [123; 34; 109; 115; 103; 34; 58; 34; 116; 104; 105; 114; 100; 34; 44; 34; 115; 101; 114; 118; 105; 99; 101; 34; 58; 34; 99; 34; 125]%N [] [] [] None [None; Some (OV [34; 99; 34]%N); Some (OV [34; 116; 104; 105; 114; 100; 34]%N)].
+Lemma ex_scfg_ok : Forall cp_ok ex_scfg.
+Proof. repeat constructor; unfold cp_ok; cbn; try discriminate; intros _; reflexivity. Qed.
